@@ -148,6 +148,10 @@ def run_case(case, prefix):
         sc.env_point("socket closed by peer")
         w.dispatchers[0].handle_close()
         w.pump_detached()
+        if case.get("flip_passive"):
+            # the next login is requested with the other passive flag (yowsup itself does this after a key upload)
+            from yowsup.layers.auth.layer_authentication import YowAuthenticationProtocolLayer as _A
+            w.stack.setProp(_A.PROP_PASSIVE, not bool(case.get("passive", False)))
         w.connect()
         w.dispatchers[1].fire_connected()
         deliver_loop(1)
@@ -210,7 +214,10 @@ def run_case(case, prefix):
                 bad("no-client-payload", "server never received the client payload")
             else:
                 ua = cp.user_agent
-                exp = (int(w.config.phone), bool(case.get("passive", False)), w.config.pushname, "262", "07", "fd-1")
+                want_passive = bool(case.get("passive", False))
+                if case.get("flip_passive") and fc > 0:
+                    want_passive = not want_passive
+                exp = (int(w.config.phone), want_passive, w.config.pushname, "262", "07", "fd-1")
                 got = (cp.username, cp.passive, cp.push_name, ua.mcc, ua.mnc, ua.phone_id)
                 if got != exp:
                     bad("client-payload", "client payload %r differs from configured account %r" % (got, exp))
@@ -307,7 +314,8 @@ def cases_for(tier):
                                              ("IK", "close-before-hello"), ("IK", "close-mid-bigframe"),
                                              ("XXfallback", "close-mid-hello")):
                 continue
-            cases.append({"variant": var, "cuts": [], "burst": 1, "nsend": 1, "history": hist})
+            cases.append({"variant": var, "cuts": [], "burst": 1, "nsend": 1, "history": hist,
+                          "flip_passive": hist in ("close-after-transport", "close-before-hello")})
             if not quick:
                 cases.append({"variant": var, "cuts": [[0, 2]], "burst": 2, "nsend": 2, "history": hist, "edge": True})
     return cases
